@@ -615,15 +615,16 @@ def classes_plan(quick):
     else:
         for b in cl:
             plan.append(([(p, ()) for p in b], True, m5))
-        for b in small:
+        for b in cl:
             plan.append(([(p, ()) for p in b], False, [(3, 6), (4, 6)]))
             plan.append(([(p, ()) for p in b], True, [(3, 6)]))
         for k in (1, 2):
             for q in R.perms(k):
                 for s in R.all_shadings(k):
                     plan.append(([(q, tuple(sorted(s)))], True, [(2, 5), (3, 5)]))
+                    plan.append(([(q, tuple(sorted(s)))], False, [(2, 6), (3, 6)]))
                     if len(s) <= 2 or len(s) >= (k + 1) ** 2 - 2:
-                        plan.append(([(q, tuple(sorted(s)))], False, [(3, 6), (4, 6)]))
+                        plan.append(([(q, tuple(sorted(s)))], False, [(4, 6)]))
         for q in R.perms(3):
             for s in R.all_shadings(3):
                 if len(s) in (1, 2):
@@ -1068,9 +1069,9 @@ def run(ctx, only=None):
             "pattern of length 1,2 (all shadings) at m=1..3, n=5; "
             + ("co-classes of bases of <=2 patterns of length<=3 at (3,5); "
                if quick else
-               "co-classes of all of these; bases of <=2 patterns of length<=3 at (3,6),(4,6) and "
-               "their co-classes at (3,6); single mesh patterns of length<=2 with <=2 or all-but-<=2 "
-               "cells at (3,6),(4,6); mesh patterns of length 3 with 1 or 2 cells at (3,5),(4,5); ")
+               "co-classes of all of these; the classical bases also at (3,6),(4,6) and their "
+               "co-classes at (3,6); every single mesh pattern of length<=2 at (2,6),(3,6) (and (4,6) "
+               "for <=2 or all-but-<=2 cells); mesh patterns of length 3 with 1 or 2 cells at (3,5),(4,5); ")
             + "named families %s at %s; distinct inputs not already in subsets3/n4/n5: %d (named: %d)"
             % (sorted(NAMED) + ["shipped predicate " + x for x in LIB_NAMED], "(2,5),(3,5),(4,5),(3,6),(4,6)" if quick else "every m<=min(4,n), n<=6",
                len(_CLASS_CASES), nnamed))
